@@ -382,9 +382,19 @@ def run(chk):
     from tsg.sym import NotClosedForm
     prm = {p_.get("name"): p_ for p_ in cg.params()}
     body = cg.body.get("c", [])
-    stop = next((k_ for k_, st in enumerate(body) if st.get("k") == "CXXMemberCallExpr" and short(callee(st) or "") == "clear"), None)
+    def starts_copy(st):
+        return any(q.get("k") in ("CXXMemberCallExpr", "CallExpr") and (short(callee(q) or "") == "clear" or "make_unique" in (callee(q) or "")) for q in [st] + list(walk(st))) and \
+            not any(q.get("k") == "CXXThisExpr" and False for q in walk(st))
+    # statements before the destination is touched: up to the first statement that clears it or builds a grid object; the self-copy branch recurses and is skipped by the identity hook
+    stop = None
+    for k_, st in enumerate(body):
+        if st.get("k") == "IfStmt" and any(z.get("k") == "CXXThisExpr" for z in walk(st.get("cond") or {})):
+            continue
+        if starts_copy(st):
+            stop = k_
+            break
     if stop is None or "outputs_end" not in prm:
-        raise AnalysisBroken("copyGrid: no clear() statement / no outputs_end parameter")
+        raise AnalysisBroken("copyGrid: no statement that starts the copy / no outputs_end parameter")
     nrange, bad = 0, []
     for N in (1, 4):
         for oe in (-7, -2, -1, 0, 1, N - 1, N, N + 1, N + 9):
